@@ -1,0 +1,48 @@
+//go:build verif
+// +build verif
+
+// Verification hook (property C15): lets a harness give the package-level GroupCreateProcessor the
+// joined-group storage, miner identity and network stub that Init would have given it, so that
+// GetMemberSignPubKey (used by the signing round) answers from supplied group records.
+// Add-only; compiled only with -tags verif.
+package group_create
+
+import (
+	"com.tuntun.rangers/node/src/consensus/access"
+	"com.tuntun.rangers/node/src/consensus/model"
+	"com.tuntun.rangers/node/src/consensus/net"
+)
+
+type verifR1NopLogger struct{}
+
+func (verifR1NopLogger) Tracef(format string, params ...interface{})       {}
+func (verifR1NopLogger) Debugf(format string, params ...interface{})       {}
+func (verifR1NopLogger) Infof(format string, params ...interface{})        {}
+func (verifR1NopLogger) Warnf(format string, params ...interface{}) error  { return nil }
+func (verifR1NopLogger) Errorf(format string, params ...interface{}) error { return nil }
+func (verifR1NopLogger) Debug(v ...interface{})                            {}
+func (verifR1NopLogger) Info(v ...interface{})                             {}
+func (verifR1NopLogger) Warn(v ...interface{}) error                       { return nil }
+func (verifR1NopLogger) Error(v ...interface{}) error                      { return nil }
+
+// VerifR1Install sets the fields of GroupCreateProcessor that GetMemberSignPubKey / askSignPK read.
+func VerifR1Install(storage *access.JoinedGroupStorage, mi model.SelfMinerInfo, ns net.NetworkServer) {
+	if groupCreateLogger == nil {
+		groupCreateLogger = verifR1NopLogger{}
+	}
+	if groupCreateDebugLogger == nil {
+		groupCreateDebugLogger = verifR1NopLogger{}
+	}
+	GroupCreateProcessor.minerInfo = mi
+	GroupCreateProcessor.joinedGroupStorage = storage
+	GroupCreateProcessor.NetServer = ns
+}
+
+// VerifR1ForgetKeyRequests empties the record of members already asked for their sign key
+// (askSignPK asks each id once per minute).
+func VerifR1ForgetKeyRequests() {
+	recordMap.Range(func(key, value interface{}) bool {
+		recordMap.Delete(key)
+		return true
+	})
+}
